@@ -293,7 +293,8 @@ def t_time_constraints(h: int, m: int, s: int, h1: int, m1: int, h2: int, m2: in
 
 
 # ---- month-day candidate against one date-range constraint --------------------------------------------------------------------
-MDCON = sl('mdcon', 'year')          # 'year' (yyyy), 'month' (yyyy-mm), 'days' (explicit start + P<ndays>D)
+MDCON = sl('mdcon', 'year')          # 'year' (yyyy), 'month' (yyyy-mm), 'days' (explicit start + P<ndays>D), 'two' (two such ranges GAP days apart)
+GAP = sl('gap', 60)
 DIM_LEAP = [0, 31, 29, 31, 30, 31, 30, 31, 31, 30, 31, 30, 31]
 
 
@@ -307,6 +308,26 @@ def _md_run(o, mo, d):
         con = digits.ph(y, 4) + '-' + digits.ph(m0, 2)
         lo = datetime(y, m0, 1)
         hi = datetime(y + 1, 1, 1) if m0 == 12 else datetime(y, m0 + 1, 1)
+    elif MDCON == 'twomonths':
+        # two year-month constraints three months apart (m0 <= 9): the two months between them belong to neither
+        assume(m0 <= 9)
+        lo, hi = datetime(y, m0, 1), datetime(y, m0 + 1, 1)
+        lo2 = datetime(y, m0 + 3, 1)
+        hi2 = datetime(y + 1, 1, 1) if m0 == 9 else datetime(y, m0 + 4, 1)
+        con = digits.ph(y, 4) + '-' + digits.ph(m0, 2)
+        con2 = digits.ph(y, 4) + '-' + digits.ph(m0 + 3, 2)
+        res = TimexRangeResolver.evaluate(['XXXX-%s-%s' % (digits.ph(mo, 2), digits.ph(d, 2))], [con, con2])
+        return res, (lo, lo2), (hi, hi2)
+    elif MDCON == 'two':
+        # two disjoint explicit ranges GAP days apart: a candidate in the gap belongs to neither
+        lo = datetime(y, m0, d0)
+        hi = lo + timedelta(days=NDAYS)
+        lo2 = hi + timedelta(days=GAP)
+        hi2 = lo2 + timedelta(days=NDAYS)
+        con = '(%s-%s-%s,XXXX-XX-XX,P%dD)' % (digits.ph(y, 4), digits.ph(m0, 2), digits.ph(d0, 2), NDAYS)
+        con2 = '(%s-%s-%s,XXXX-XX-XX,P%dD)' % (digits.ph(lo2.year, 4), digits.ph(lo2.month, 2), digits.ph(lo2.day, 2), NDAYS)
+        res = TimexRangeResolver.evaluate(['XXXX-%s-%s' % (digits.ph(mo, 2), digits.ph(d, 2))], [con, con2])
+        return res, (lo, lo2), (hi, hi2)
     else:
         con = '(%s-%s-%s,XXXX-XX-XX,P%dD)' % (digits.ph(y, 4), digits.ph(m0, 2), digits.ph(d0, 2), NDAYS)
         lo = datetime(y, m0, d0)
@@ -326,7 +347,10 @@ def h_monthday_in_range(o: int, mo: int, d: int):
     for t in res:
         assert t.year is not None and t.month == mo and t.day_of_month == d
         dt = datetime(t.year, t.month, t.day_of_month)
-        assert lo <= dt < hi
+        if MDCON in ('two', 'twomonths'):
+            assert (lo[0] <= dt and dt < hi[0]) or (lo[1] <= dt and dt < hi[1]), ('result outside every supplied range', t.timex_value())
+        else:
+            assert lo <= dt < hi
         got.append(dt)
     for i in range(len(got)):
         for j in range(i + 1, len(got)):
